@@ -1396,14 +1396,14 @@ def selfcheck():
 
 
 SUBCHECKS = [
-    SubCheck('pp_stream', lambda: STREAM_SPEC, run_pp_stream, quick=800, thorough=6880),
-    SubCheck('pp_grammar', grammar_strategy, run_pp_grammar, quick=2800, thorough=18360),
-    SubCheck('pp_layout', lambda: LAYOUT_SPEC, run_pp_layout, quick=1000, thorough=5740),
-    SubCheck('pp_corpus', lambda: CORPUS_SPEC, run_pp_corpus, quick=800, thorough=4590, enumerate=enum_corpus),
-    SubCheck('pp_text', lambda: st.fixed_dictionaries(dict(text=st.text(alphabet=st.sampled_from(sorted(set(ALPHABET))), max_size=60))), run_pp_text, quick=400, thorough=2300),
-    SubCheck('noop', lambda: STREAM_SPEC, run_noop, quick=320, thorough=1840, quick_time=240, thorough_time=3000),
-    SubCheck('noop_corpus', lambda: NOOP_CORPUS_SPEC, run_noop_corpus, quick=64, thorough=360, enumerate=enum_corpus, quick_time=240, thorough_time=3000),
-    SubCheck('frame', lambda: FRAME_SPEC, run_frame, quick=520, thorough=3210, quick_time=240, thorough_time=3000),
+    SubCheck('pp_stream', lambda: STREAM_SPEC, run_pp_stream, quick=800, thorough=13760),
+    SubCheck('pp_grammar', grammar_strategy, run_pp_grammar, quick=2800, thorough=36720),
+    SubCheck('pp_layout', lambda: LAYOUT_SPEC, run_pp_layout, quick=1000, thorough=11480),
+    SubCheck('pp_corpus', lambda: CORPUS_SPEC, run_pp_corpus, quick=800, thorough=9180, enumerate=enum_corpus),
+    SubCheck('pp_text', lambda: st.fixed_dictionaries(dict(text=st.text(alphabet=st.sampled_from(sorted(set(ALPHABET))), max_size=60))), run_pp_text, quick=400, thorough=4600),
+    SubCheck('noop', lambda: STREAM_SPEC, run_noop, quick=320, thorough=3680, quick_time=240, thorough_time=3000),
+    SubCheck('noop_corpus', lambda: NOOP_CORPUS_SPEC, run_noop_corpus, quick=64, thorough=720, enumerate=enum_corpus, quick_time=240, thorough_time=3000),
+    SubCheck('frame', lambda: FRAME_SPEC, run_frame, quick=520, thorough=6420, quick_time=240, thorough_time=3000),
     SubCheck('table_layout', None, run_table_layout, quick=0, thorough=0, enumerate=enum_table_layout, quick_time=240, thorough_time=3000),
-    SubCheck('frame_corpus', lambda: FRAME_CORPUS_SPEC, run_frame_corpus, quick=128, thorough=740, quick_time=240, thorough_time=3000),
+    SubCheck('frame_corpus', lambda: FRAME_CORPUS_SPEC, run_frame_corpus, quick=128, thorough=1480, quick_time=240, thorough_time=3000),
 ]
